@@ -96,6 +96,18 @@ fn rare_shapes(b: usize) -> Vec<GenItem> {
             vec!["skip"],
         ),
         mk(
+            format!("RareWide{b}"),
+            "struct-with-36-fields",
+            "#[derive(Serialize, Deserialize, Debug, Clone, PartialEq)]\npub struct @N@ {\n    pub f0: u8,\n    pub f1: u8,\n    pub f2: u8,\n    pub f3: u8,\n    pub f4: u8,\n    pub f5: u8,\n    pub f6: u8,\n    pub f7: u8,\n    pub f8: u8,\n    pub f9: u8,\n    pub f10: u8,\n    pub f11: u8,\n    pub f12: u8,\n    pub f13: u8,\n    pub f14: u8,\n    pub f15: u8,\n    pub f16: u8,\n    pub f17: u8,\n    pub f18: u8,\n    pub f19: u8,\n    pub f20: u8,\n    pub f21: u8,\n    pub f22: u8,\n    pub f23: u8,\n    pub f24: u8,\n    pub f25: u8,\n    pub f26: u8,\n    pub f27: u8,\n    pub f28: u8,\n    pub f29: u8,\n    pub f30: u8,\n    pub f31: u8,\n    pub f32: u8,\n    #[typeshare(serialized_as = \"String\")]\n    pub f33: u8,\n    pub f34: u8,\n    #[typeshare(serialized_as = \"String\")]\n    pub f35: u8,\n}\n",
+            vec!["serialized_as"],
+        ),
+        mk(
+            format!("RareWideVariant{b}"),
+            "variant-with-36-fields",
+            "#[derive(Serialize, Deserialize, Debug, Clone, PartialEq)]\npub enum @N@ {\n    Small,\n    Wide {\n        g0: u8,\n        g1: u8,\n        g2: u8,\n        g3: u8,\n        g4: u8,\n        g5: u8,\n        g6: u8,\n        g7: u8,\n        g8: u8,\n        g9: u8,\n        g10: u8,\n        g11: u8,\n        g12: u8,\n        g13: u8,\n        g14: u8,\n        g15: u8,\n        g16: u8,\n        g17: u8,\n        g18: u8,\n        g19: u8,\n        g20: u8,\n        g21: u8,\n        g22: u8,\n        g23: u8,\n        g24: u8,\n        g25: u8,\n        g26: u8,\n        g27: u8,\n        g28: u8,\n        g29: u8,\n        g30: u8,\n        g31: u8,\n        g32: u8,\n        g33: u8,\n        #[typeshare(skip)]\n        g34: u8,\n        g35: u8,\n    },\n}\n",
+            vec!["skip"],
+        ),
+        mk(
             format!("RareTupleConstGen{b}"),
             "const-generic-tuple-struct",
             "pub struct @N@<const N: usize>(\n    #[typeshare(serialized_as = \"Vec<u8>\")]\n    pub [u8; N],\n);\n",
@@ -595,7 +607,7 @@ pub fn run(ctx: &Ctx) -> (Spec, Report) {
     }
     let spec = Spec {
         level: "translation_validation",
-        rule: format!("{batches} batch(es) of {per_batch} generated items (structs with named / tuple / unit bodies, enums with unit / tuple / struct variants, unions, aliases, consts; generics, lifetimes, where-clauses; plus four hand-written rare shapes per batch - const generic struct / enum / tuple struct and a `*const T` bound, with helpers on their members; derive, serde, cfg, doc, allow attributes in any order; #[typeshare], #[typeshare::typeshare], #[::typeshare::typeshare] with every item-level argument; skip / serialized_as / per-language helper lists on fields, variants, struct-variant fields and tuple fields), each rendered as an annotated and a stripped twin: (a) both twins compiled by cargo/rustc against /repo/lib, plus {n_neg} negative twin pairs that must both be rejected; (b) -Zunpretty=expanded of the two modules compared item by item as syn token streams; (c) serde_json output and round trip of a value of every constructible type compared between the twins"),
+        rule: format!("{batches} batch(es) of {per_batch} generated items (structs with named / tuple / unit bodies, enums with unit / tuple / struct variants, unions, aliases, consts; generics, lifetimes, where-clauses; plus six hand-written rare shapes per batch - const generic struct / enum / tuple struct, a `*const T` bound, a struct and a variant with 36 fields - with helpers on their (late) members; derive, serde, cfg, doc, allow attributes in any order; #[typeshare], #[typeshare::typeshare], #[::typeshare::typeshare] with every item-level argument; skip / serialized_as / per-language helper lists on fields, variants, struct-variant fields and tuple fields), each rendered as an annotated and a stripped twin: (a) both twins compiled by cargo/rustc against /repo/lib, plus {n_neg} negative twin pairs that must both be rejected; (b) -Zunpretty=expanded of the two modules compared item by item as syn token streams; (c) serde_json output and round trip of a value of every constructible type compared between the twins"),
         assumptions: vec![
             "doc comments are compared after syn's normalisation (/// x == #[doc = \" x\"])".into(),
             "the stripped twin is rendered by the generator, which knows where it put typeshare attributes".into(),
